@@ -5,10 +5,10 @@
     DicomWrapper is the contract written down in Conv/Geom.v).  [reachable st]: the stack is the result of
     any history of add / query operations; [gfiles_ok gs st]: [gs] lists, for every file of the stack, its
     pixels (rows x cols) and geometry.  All arithmetic is exact (Q). *)
-From Coq Require Import List Bool Arith ZArith NArith QArith Qcanon Lia Permutation Sorted.
+From Coq Require Import List Bool Arith ZArith NArith QArith Qcanon Qabs Lia Permutation Sorted.
 From DV Require Import Common.Res Common.Str Stack.Model Stack.Sort Stack.Spec Stack.ProofsShape Stack.ProofsInv
   Orient.Model Orient.Spec Orient.ProofsAff
-  Conv.Geom Conv.GeomSpec Conv.ProofsGeomAff Conv.ProofsGeomTop Conv.ExamplesGeom.
+  Conv.Geom Conv.GeomSpec Conv.ProofsGeomAff Conv.ProofsGeomBound Conv.ProofsGeomTop Conv.ExamplesGeom.
 Import ListNotations.
 Local Open Scope nat_scope.
 
@@ -37,10 +37,15 @@ Theorem C02_values : forall gs st code embed st' go,
          apply_aff (go_T go) idx' = Some (cell_idx (length (grid_shape r c S T V)) i j s t v)).
 Proof. exact values_reachable. Qed.
 
-(** (b) When the sorted files lie on a line with equal gaps and share orientation and spacing ([on_line]; the
-    code takes the slice column from the first two sorted files only), the output affine maps the voxel of
-    pixel (i, j) of the file in cell (s, t, v) to that pixel's DICOM patient position with x and y negated. *)
-Theorem C02_geometry : forall gs st code embed st' go,
+(** (b) PARTIAL: the registered clause says "for any complete stack ... the output affine maps that voxel's index to
+    the pixel's patient position".  That full statement
+      forall (accepted stack) cell pixel idx', veq3 (world (go_aff go) idx') (ras (pixel_pos g i j))
+    is FALSE of the faithful model (C02_geometry_refuted): get_shape accepts slice gaps that differ by up to 4 % while
+    the affine is linear.  What holds: exactness when the sorted files lie on a line with equal gaps and share
+    orientation and spacing ([on_line]; the code takes the slice column from the first two sorted files only);
+    in general the exact error term (C02_geometry_irregular) and its bound by the acceptance tolerance
+    (C02_geometry_bound). *)
+Theorem C02_geometry_partial : forall gs st code embed st' go,
   reachable st -> gfiles_ok gs st ->
   conv_geom gs st code embed = (st', Ok go) ->
   forall S T V r c,
@@ -92,9 +97,37 @@ Theorem C02_geometry_irregular : forall gs st code embed st' go d,
     (forall s, (slice_dev P s == gap_excess P s)%Q).
 Proof. exact geometry_irregular_reachable. Qed.
 
-(** (a') The DICOM rescale inside the model: when [rs g] gives the stored pixels and scale factors of every file
-    ([g_pix] = slope * stored + intercept, in units of 1 / rs_den), the voxel of pixel (i, j) of the file in cell
-    (s, t, v) holds slope * stored + intercept of that file's stored pixel. *)
+(** The geometry clause as registered is refuted by an ACCEPTED stack: three slices at x = 1, 3, 5.06 (gaps 2 and 2.06,
+    inside the 4 % tolerance) convert; the voxel of pixel (0, 0) of the file at x = 1 is mapped to x = 0.94. *)
+Theorem C02_geometry_refuted :
+  exists gs st code embed st' go S T V r c s t v i j g idx',
+    reachable st /\ gfiles_ok gs st /\ positions_ok gs st /\
+    conv_geom gs st code embed = (st', Ok go) /\
+    0 < S /\ 0 < T /\ 0 < V /\ o_shape (go_nifti go) = grid_shape r c S T V /\
+    s < S /\ t < T /\ v < V /\
+    file_at gs (go_ord0 go) (cell_pos S T s t v) = Some g /\
+    apply_aff (go_T go) idx' = Some (cell_idx (length (grid_shape r c S T V)) i j s t v) /\
+    ~ veq3 (world (go_aff go) idx') (ras (pixel_pos g i j)).
+Proof. exact ex_irr_refutes. Qed.
+
+(** The error is bounded by the stack's acceptance tolerance (T_stack.spacing_rtol = 4 %, numpy's atol 1e-8): on every
+    stack that converts, slice s deviates from the lattice the affine assumes by at most
+        s * gap_bound gap_0,   gap_bound g = 2 rtol / (1 - rtol) * g + 2 / (1 - rtol) * atol = g / 12 + 25/12 * 1e-8,
+    gap_0 = the gap between the first two sorted slices (= the affine's slice column); with C02_geometry_irregular:
+    the mapped position of a voxel of slice s is at most that far (times the displacement vector d) from the true one. *)
+Theorem C02_geometry_bound : forall gs st code embed st' go,
+  reachable st -> conv_geom gs st code embed = (st', Ok go) ->
+  let P := ssort qc_leb (pos_vals st) in
+  (forall s, s < length P -> (Qabs (slice_dev P s) <= NQ s * gap_bound (gap_at P 0))%Q) /\
+  (forall g0, (gap_bound g0 == (1 # 12) * g0 + (25 # 12) * np_atol)%Q).
+Proof. exact geometry_bound_reachable. Qed.
+
+(** (a') The DICOM rescale.  The model does NOT compute the rescale: nibabel applies it, [g_pix] are the values
+    DicomWrapper.get_data() returns.  [rescaled_ok g (rs g)] is a HYPOTHESIS relating those input pixels to the stored
+    pixels and scale factors ([g_pix] = rs_den * (slope * stored + intercept)); the correspondence checks it on every
+    case (CorrGeom.rescales_ok, from get_unscaled_data / scale_factors).  Under it, by substitution into C02_values:
+    the voxel of pixel (i, j) of the file in cell (s, t, v) holds slope * stored + intercept of that file's stored
+    pixel ("exactly once" is C02_values). *)
 Theorem C02_values_rescaled : forall gs st code embed st' go (rs : gfile -> rescale),
   reachable st -> gfiles_ok gs st ->
   conv_geom gs st code embed = (st', Ok go) ->
@@ -171,7 +204,7 @@ Proof.
   repeat split; vm_compute; reflexivity.
 Qed.
 
-Example C02_geometry_ex :
+Example C02_geometry_partial_ex :
   on_line ex_gs (go_ord0 ex_go) 3 /\
   (* that voxel's world position is the pixel's patient position (1, 0, 1) with x, y negated *)
   map Qred (world (go_aff ex_go) [0; 1; 1; 1]) = [-1; 0; 1]%Q /\
@@ -201,6 +234,18 @@ Proof.
   split; [exact ex_irr_sources_line|]. split; [eexists; exact ex_irr_conv|].
   repeat split; vm_compute; reflexivity.
 Qed.
+
+Example C02_geometry_refuted_ex :
+  map Qred (world (go_aff ex_irr_go) [0; 0; 2]) = [-47 # 50; 0; 0]%Q /\
+  map Qred (ras (pixel_pos (ex_irr_gfile 0) 0 0)) = [-1; 0; 0]%Q.
+Proof. split; vm_compute; reflexivity. Qed.
+
+(** the accepted irregular series: |slice_dev P 2| = 0.06 <= 2 * (2.06 / 12 + ...) *)
+Example C02_geometry_bound_ex :
+  Qred (slice_dev (ssort qc_leb (pos_vals ex_irr_st)) 2) = (-3 # 50)%Q /\
+  Qred (gap_at (ssort qc_leb (pos_vals ex_irr_st)) 0) = (103 # 50)%Q /\
+  Qle_bool (3 # 50) (2 * gap_bound (103 # 50)) = true.
+Proof. repeat split; vm_compute; reflexivity. Qed.
 
 Example C02_values_rescaled_ex :
   (forall g, In g (go_files ex_go) -> rescaled_ok g (ex_rs g) = true) /\
